@@ -120,6 +120,8 @@ def _header(name, params, want):
             // the value: %(doc)s
             (res is Ok && res->Ok_0 is A) ==> final(self).gh@.a == (if %(want)s { 1int } else { 0int }), //@ C01:condval-value-in-a
             (res is Ok && res->Ok_0 is Tmp) ==> final(self).gh@.tmp == (if %(want)s { 1int } else { 0int }), //@ C01:condval-value-in-cctmp
+            // a value parked in the scratch byte is marked: nothing else may be parked there until it is used
+            (res is Ok && res->Ok_0 is Tmp) ==> final(self).tmp_in_use, //@ C01:condval-value-in-cctmp-marks-the-scratch-byte
             (res is Ok && res->Ok_0 is Immediate) ==> res->Ok_0->Immediate_0 == (if %(want)s { 1i32 } else { 0i32 }), //@ C01,C10:condval-value-constant
             res is Ok ==> (res->Ok_0 is A || res->Ok_0 is Tmp || res->Ok_0 is Immediate),
             res is Ok ==> final(self).gh@.stack == old(self).gh@.stack, //@ C01:condval-stack-balanced
@@ -141,6 +143,8 @@ def candidates(f):
                         "simulate": {"init": {"a": a, "e": e}, "expect": {"c": e if a else 4}, "stack_empty": True}, "note": "ternary a=%d e=%d" % (a, e)})
             out.append({"source": "unsigned char a, b, c, e;\nvoid main() { c = (b + 1) + (a ? e : 4); }\n", "args": ["-O0"], "expect": {"panic": False},
                         "simulate": {"init": {"a": a, "e": e, "b": 10}, "expect": {"c": 11 + (e if a else 4)}, "stack_empty": True}, "note": "ternary, live accumulator a=%d e=%d" % (a, e)})
+    out.append({"source": "unsigned char a, b, c, d, r;\nvoid main() { r = (a+b) + (!c + (d<<1)); }\n", "args": ["-O0"], "expect": {"panic": False},
+                "simulate": {"init": {"a": 1, "b": 2, "c": 0, "d": 3}, "expect": {"r": 10}, "stack_empty": True}, "note": "!c parked in the scratch byte, then a shift that wants the scratch byte too (an error is fine, 15 is not)"})
     return out
 
 
